@@ -218,7 +218,7 @@ func (p *ProjectRunner) onProcessEnd(exitCode int, procConf *types.ProcessConfig
 		verifPointR(p, "exit_trigger", procConf.ReplicaName, exitCode)
 		_ = p.ShutDownProject()
 		p.exitCode = exitCode
-		verifPointR(p, "exit_code_set", exitCode)
+		verifPointR(p, "exit_code_set", p.exitCode)
 	}
 }
 
@@ -227,7 +227,7 @@ func (p *ProjectRunner) onProcessSkipped(procConf *types.ProcessConfig) {
 		verifPointR(p, "exit_trigger", procConf.ReplicaName, 1)
 		_ = p.ShutDownProject()
 		p.exitCode = 1
-		verifPointR(p, "exit_code_set", 1)
+		verifPointR(p, "exit_code_set", p.exitCode)
 	}
 }
 
